@@ -360,6 +360,17 @@ func cmdCheck(args []string) {
 		if b, err := json.MarshalIndent(merged, "", " "); err == nil {
 			os.WriteFile(np, b, 0644)
 		}
+		lp := filepath.Join(verif, "baseline", "loops.json")
+		mergedL := map[string][]string{}
+		if b, err := os.ReadFile(lp); err == nil {
+			json.Unmarshal(b, &mergedL)
+		}
+		for fn, k := range eng.seenLoops {
+			mergedL[fn] = k
+		}
+		if b, err := json.MarshalIndent(mergedL, "", " "); err == nil {
+			os.WriteFile(lp, b, 0644)
+		}
 		var names []string
 		for _, r := range results {
 			if !r.Canary && (r.Status == "unsat" || r.Status == "ok") {
